@@ -3,44 +3,50 @@
     on one RW mutex (executable definitions only).
 
     Threads run programs (lists of operations). An operation goes through
-      invoke -> acquire -> begin -> finish -> release -> respond.
-    The body is NOT atomic: [begin] copies the shared state into the thread
-    ([Mid o snap]); [finish] computes [step snap o] from that copy and - for a
-    writer - stores the new state. Between the two, any other thread may take
-    steps. Without the mutex this loses updates; the theorem in
-    Proofs/Atomic.v shows that with it every execution equals the sequential
-    one in the order of the [finish] steps, each of which lies between the
-    invocation and the response of its operation.
+      invoke -> acquire -> body micro-steps ... -> release -> respond.
+    The body is NOT atomic and does NOT work on a private copy: it is an
+    arbitrary small-step program [bstep o s l] over the SHARED state [s] and a
+    thread-local state [l] (initially [l0 o]); every micro-step may read and
+    write the shared state and either continues with a new local state or
+    finishes with the result. Any other thread may take steps between two
+    micro-steps. This is exactly what "every access to the shared state lies
+    between Lock and Unlock" (the generated-skeleton theorem
+    accesses_inside_critical_section) gives: however the Go method body is
+    cut into accesses, each access is one micro-step taken while the thread
+    holds the mutex. Proofs/Atomic.v shows that every execution equals the
+    sequential execution of the same bodies in the order of their last
+    micro-steps, each of which lies between invocation and response.
 
-    An operation takes the read lock iff [is_read]; readers share the mutex
-    and do not store. A schedule is a list of thread ids; a scheduled thread
-    that cannot move (blocked on the mutex, or finished) stutters. *)
+    An operation takes the read lock iff [is_read]; readers share the mutex.
+    A schedule is a list of thread ids; a scheduled thread that cannot move
+    (blocked on the mutex, or finished) stutters. *)
 From Coq Require Import List Bool Arith.
 Import ListNotations.
 
 Section Atomic.
-  Variables (S O R : Type).
-  Variable step : S -> O -> S * R.
-  Variable is_read : O -> bool.
+  Variables (St Op Rs Lc : Type).
+  Variable l0 : Op -> Lc.
+  Variable bstep : Op -> St -> Lc -> St * (Lc + Rs).
+  Variable is_read : Op -> bool.
 
   Inductive phase :=
-  | Idle | Waiting (o : O) | Holding (o : O) | Mid (o : O) (snap : S)
-  | Ran (o : O) (r : R) | Released (o : O) (r : R).
+  | Idle | Waiting (o : Op) | Body (o : Op) (l : Lc)
+  | Ran (o : Op) (r : Rs) | Released (o : Op) (r : Rs).
 
   Inductive lockst := LFree | LW (t : nat) | LR (ts : list nat).
 
   Inductive event :=
-  | EInv (t : nat) (o : O)
-  | ELin (t : nat) (o : O) (r : R)     (* the finish step: linearization point *)
-  | ERes (t : nat) (o : O) (r : R).
+  | EInv (t : nat) (o : Op)
+  | ELin (t : nat) (o : Op) (r : Rs)     (* the last micro-step: linearization point *)
+  | ERes (t : nat) (o : Op) (r : Rs).
 
   Record config := mkcfg {
-    sh : S;
+    sh : St;
     lk : lockst;
-    prog : nat -> list O;
+    prog : nat -> list Op;
     ph : nat -> phase;
     hist : list event;              (* newest first *)
-    lin : list (nat * O * R) }.     (* finished bodies, oldest first *)
+    lin : list (nat * Op * Rs) }.     (* finished bodies, oldest first *)
 
   Definition upd {A} (f : nat -> A) (t : nat) (v : A) : nat -> A :=
     fun x => if Nat.eqb x t then v else f x.
@@ -48,7 +54,7 @@ Section Atomic.
   Fixpoint remove1 (t : nat) (l : list nat) : list nat :=
     match l with [] => [] | x :: r => if Nat.eqb x t then r else x :: remove1 t r end.
 
-  Definition acquire (c : config) (t : nat) (o : O) : option lockst :=
+  Definition acquire (c : config) (t : nat) (o : Op) : option lockst :=
     if is_read o then
       match lk c with LFree => Some (LR [t]) | LR ts => Some (LR (t :: ts)) | LW _ => None end
     else
@@ -72,14 +78,15 @@ Section Atomic.
         end
     | Waiting o =>
         match acquire c t o with
-        | Some l => mkcfg (sh c) l (prog c) (upd (ph c) t (Holding o)) (hist c) (lin c)
+        | Some l => mkcfg (sh c) l (prog c) (upd (ph c) t (Body o (l0 o))) (hist c) (lin c)
         | None => c
         end
-    | Holding o => mkcfg (sh c) (lk c) (prog c) (upd (ph c) t (Mid o (sh c))) (hist c) (lin c)
-    | Mid o snap =>
-        let '(s', r) := step snap o in
-        mkcfg (if is_read o then sh c else s') (lk c) (prog c) (upd (ph c) t (Ran o r))
-              (ELin t o r :: hist c) (lin c ++ [(t, o, r)])
+    | Body o l =>
+        match bstep o (sh c) l with
+        | (s', inl l') => mkcfg s' (lk c) (prog c) (upd (ph c) t (Body o l')) (hist c) (lin c)
+        | (s', inr r) => mkcfg s' (lk c) (prog c) (upd (ph c) t (Ran o r))
+                               (ELin t o r :: hist c) (lin c ++ [(t, o, r)])
+        end
     | Ran o r => mkcfg (sh c) (release c t) (prog c) (upd (ph c) t (Released o r)) (hist c) (lin c)
     | Released o r => mkcfg (sh c) (lk c) (prog c) (upd (ph c) t Idle) (ERes t o r :: hist c) (lin c)
     end.
@@ -87,15 +94,33 @@ Section Atomic.
   Fixpoint exec (c : config) (sched : list nat) : config :=
     match sched with [] => c | t :: r => exec (tstep c t) r end.
 
-  Definition init (s0 : S) (p : nat -> list O) : config :=
+  Definition init (s0 : St) (p : nat -> list Op) : config :=
     mkcfg s0 LFree p (fun _ => Idle) [] [].
 
-  (** the sequential execution *)
-  Fixpoint seq_run (s : S) (os : list O) : S * list R :=
+  (** a body run alone: [k] continuing micro-steps / then the finishing one *)
+  Fixpoint iterp (k : nat) (o : Op) (s : St) (l : Lc) : option (St * Lc) :=
+    match k with
+    | O => Some (s, l)
+    | S k' => match bstep o s l with
+                        | (s', inl l') => iterp k' o s' l'
+                        | _ => None
+                        end
+    end.
+  Definition runs (o : Op) (s s' : St) (r : Rs) : Prop :=
+    exists k s1 l1, iterp k o s (l0 o) = Some (s1, l1) /\ bstep o s1 l1 = (s', inr r).
+
+  (** the sequential execution of a list of finished operations *)
+  Inductive seq_rel : St -> list (nat * Op * Rs) -> St -> Prop :=
+  | seq_nil : forall s, seq_rel s [] s
+  | seq_snoc : forall s l s1 t o r s2,
+      seq_rel s l s1 -> runs o s1 s2 r -> seq_rel s (l ++ [(t, o, r)]) s2.
+
+  (** with a step function that the bodies implement *)
+  Fixpoint seq_run (step : St -> Op -> St * Rs) (s : St) (os : list Op) : St * list Rs :=
     match os with
     | [] => (s, [])
     | o :: r => let '(s', x) := step s o in
-                let '(s'', xs) := seq_run s' r in (s'', x :: xs)
+                let '(s'', xs) := seq_run step s' r in (s'', x :: xs)
     end.
 
   (** per-thread shape of a history: Inv, then Lin, then Res of the same
@@ -118,10 +143,18 @@ Section Atomic.
   | br_cons : forall e h, bracketed h -> ok_next (last_of (ev_thread e) h) e -> bracketed (e :: h).
 
   (** the linearization events of a history, oldest first *)
-  Fixpoint lin_of (h : list event) : list (nat * O * R) :=
+  Fixpoint lin_of (h : list event) : list (nat * Op * Rs) :=
     match h with
     | [] => []
     | ELin t o r :: rest => lin_of rest ++ [(t, o, r)]
     | _ :: rest => lin_of rest
     end.
+
+  (** no writer is in the middle of its body *)
+  Definition no_writer_mid (c : config) : Prop :=
+    forall t o l, ph c t = Body o l -> is_read o = true.
 End Atomic.
+
+(** the one-micro-step body of a step function (used for running examples) *)
+Definition atomic_body {S O R} (step : S -> O -> S * R) (o : O) (s : S) (l : unit) : S * (unit + R) :=
+  let '(s', r) := step s o in (s', inr r).
